@@ -52,6 +52,7 @@ def build(repo, spec_dir, canary=False):
     # the closure of get_initial_partition: the test that decides the block
     b.emit('}')
     b.slice_fn('initial_block_test', "pub fn initial_block_test<'a>(self_: &Dfa<'a>, state: State) -> (r: bool)", '    ' + ce.strip().replace('self.', 'self_.'), 'dfa.rs::get_initial_partition closure |&state|', props=['C07'],
+               extra_rules=[('R39', r'\.next\(\)\.is_some\(\)', '.len() > 0', 'ITER.next().is_some() on a petgraph iterator that the stand-in returns as a Vec: the sequence is not empty')],
                clauses=[Clause('initial_partition.separates_accepting_states', 'r == first_block_test(state, self_.final_state_indices@, %s)' % NEG, ['C16', 'C02', 'C01'])])
     b.emit("impl<'a> Dfa<'a> {")
     # get_parent_states: every returned state has an edge into the splitter block
